@@ -439,7 +439,19 @@ impl Printable for Member {
 				p!(out, {n.field_name()} if(n.plus_token().is_some())({n.plus_token()}) {n.visibility()} str(" ") {n.expr()});
 			}
 			Self::MemberFieldMethod(m) => {
-				p!(out, {m.field_name()} {m.params_desc()} {m.visibility()} str(" ") {m.expr()});
+				let has_token = |text: &str| {
+					m.syntax()
+						.children_with_tokens()
+						.filter_map(|c| c.into_token())
+						.any(|t| t.text() == text)
+				};
+				if has_token("+") {
+					// `name+: function(params) body` is parsed as a method too, but can't be spelled as
+					// `name(params): body` - the `+` would be lost
+					p!(out, {m.field_name()} str("+") {m.visibility()} str(" function") {m.params_desc()} str(" ") {m.expr()});
+				} else {
+					p!(out, {m.field_name()} {m.params_desc()} {m.visibility()} str(" ") {m.expr()});
+				}
 			}
 		}
 	}
